@@ -26,6 +26,41 @@ CHECKS = {
              "/repo by differential runs of model driver vs implementation on operand pairs and shared-variable histories.",
         ref="3 C05", technique="Lean 4 proof (refinement to asset -> Int) + model/implementation correspondence",
         note=TB + "operand immutability / aliasing freedom of the implementation is shown by the differential run only."),
+    "C06": dict(
+        text="Lean theorems over the model of the builder's accounting core (deposit totals, _calc_change, "
+             "_pack_tokens_for_change, _merge_changes): the deposit total equals the ledger's per-certificate deposits and "
+             "refunds; token packing loses and duplicates nothing; change = provided - requested in ADA and every asset; "
+             "hence inputs + withdrawals + mint = outputs + fee + net deposits for every fee value. Tied to /repo by running "
+             "the model on the inputs the real build() selected and comparing all outputs; the balance equation itself is "
+             "evaluated on the serialized body by an independent ledger reader.",
+        ref="3 C06", technique="Lean 4 proof (conservation invariant of the accounting model) + model/implementation correspondence",
+        note=TB + "the theorems cover the accounting after input selection (selection is C14 / C09); the hypotheses "
+                  "(selected inputs cover the request, packing size-break not taken) are checked per scenario by the "
+                  "differential run; liveness for ADA-only wallets is evaluated on the implementation only."),
+    "C15": dict(
+        text="Lean theorems over byte-level models of Address / PointerAddress / bech32: varnat and pointer round trips "
+             "and minimality, header = kind<<4|network, byte round trip and injectivity for all 10 kinds, convertbits and "
+             "bech32 round trips, GF(2)-linearity of the checksum and the whole single-error table (decide +kernel), single "
+             "substitution rejected. Tied to /repo by differential runs against the model and independent CIP-19 / BIP-173 "
+             "references, incl. every single-character substitution of sampled addresses.",
+        ref="3 C15", technique="Lean 4 proof (bijection + linear-code error table) + model/implementation correspondence",
+        note=TB + "substitutions inside the prefix / by the separator are covered by the exhaustive substitution stream only."),
+    "C16": dict(
+        text="Lean theorems over a byte-level model of bip32.py parametric in the primitives (HMAC, PBKDF2, group): tweak "
+             "= CIP-3 clamp, child derivation refines the integer-level BIP32-Ed25519 spec, hardened threshold, public = "
+             "private derivation for soft children under explicit group laws, kL invariants along any path, path string = "
+             "fold of steps, derived signatures verify. Tied to /repo by differential runs against the model and an "
+             "independent pure-Python BIP32-Ed25519 / Ed25519 reference.",
+        ref="3 C16", technique="Lean 4 proof (refinement of the integer-level spec, abstract group) + model/implementation correspondence",
+        note=TB + "SHA-512 / HMAC / PBKDF2 / edwards25519 are modelled as structure fields with explicit law hypotheses, "
+                  "not verified; validated against hashlib / libsodium / the reference."),
+    "C20": dict(
+        text="Lean theorems parse_X (render_X u) = ok u for the five adapters (Blockfrost, Ogmios v5/v6, Kupo, cardano-cli) "
+             "over arbitrary asset lists: nothing merged, dropped or re-attributed; hex split at 56 characters; order "
+             "independence. Tied to /repo by serving rendered responses to the real adapters through stubbed transports.",
+        ref="3 C20", technique="Lean 4 proof (parse after render is the identity) + model/implementation correspondence",
+        note=TB + "the services' response shapes are taken from the canned responses and client libraries available "
+                  "offline; third-party client objects are stubbed."),
 }
 
 NOT_YET = "check not built yet in this commit (planned: Lean model + theorems + correspondence, see DESIGN.md section 3)"
